@@ -407,7 +407,10 @@ def run_check(pid, tier, seed, replay, t0):
     for c in cases[:: max(1, len(cases) // 5)][:5]:
         samples.append("%s ; %s" % (gen.cfg_head(c[1]), " ; ".join(c[2]))[:600])
     obligations = len(thms) + len(spec["families"])
-    discharged = len([t for t in thms if t[1]]) + (len(spec["families"]) if not failures and build_failure is None else 0)
+    # a family is discharged when every disagreement in it is a listed known finding (the theorems are stated
+    # for everything outside the known class); any other failure leaves it open
+    unknown_failures = len(failures) - len(known_hits)
+    discharged = len([t for t in thms if t[1]]) + (len(spec["families"]) if unknown_failures == 0 and build_failure is None else 0)
     ev = dict(
         property_id=pid, tier=tier, seed=seed, level="proof",
         coverage=dict(
